@@ -123,6 +123,8 @@ class Extractor:
         self.rules_default = list(rewrites.DEFAULT_RULES)
         self.files_used = set()
         self._src_cache = {}
+        self.drop_splices = {}      # (file, fn, impl) -> set of splice ordinals to leave out (ghost text no longer compiles)
+        self.splice_lines = {}      # generated line number -> ((file, fn, impl), splice ordinal)
 
     def src(self, rel):
         if rel not in self._src_cache:
@@ -304,6 +306,8 @@ class Extractor:
             if FORBIDDEN_GHOST.search(rustscan.mask(l)):
                 raise ScanError('%s:%d: assume/admit not allowed in contracts' % (unit_rel, ln))
         if assume:
+            # `mut` on a by-value receiver is not part of the function's type (R12)
+            sig = re.sub(r'\(\s*mut\s+self\b', '(self', sig, count=1)
             self.out.add('#[verifier::external_body]\n', 'unit', unit_rel, unit_line)
             self.out.add(sig + '\n', 'src', file, src_line, advance=False)
             for (ln, l) in contract:
@@ -336,23 +340,29 @@ class Extractor:
             raise ScanError('%s: fn %s has %d loops, contract file expects %s (lost anchor)'
                             % (file, name, len(loops), opts['loops']))
         n_loop_specs = len([s for s in splices if s[0] == 'loop'])
+        lost = []      # ghost splices that could not be placed on this version of the code
         if n_loop_specs and n_loop_specs != len(loops) and 'loops' not in opts:
-            raise ScanError('%s: fn %s has %d loops but %d loop specs (lost anchor)'
-                            % (file, name, len(loops), n_loop_specs))
+            lost.append('loop count changed: %d loops in the code, %d loop specs' % (len(loops), n_loop_specs))
         inserts = []   # (offset, order, lines)
+        drop = set(self.drop_splices.get((file, name, opts.get('impl')), ()))
         for order, (kind, k, lit, ls) in enumerate(splices):
             for (ln, l) in ls:
                 if FORBIDDEN_GHOST.search(rustscan.mask(l)):
                     raise ScanError('%s:%d: assume/admit not allowed in spliced ghost text' % (unit_rel, ln))
+            if order in drop:
+                lost.append('ghost text of splice #%d (%s %s) does not type-check against this code' % (order, kind, lit or k))
+                continue
             if kind == 'loop':
                 if k < 1 or k > len(loops):
-                    raise ScanError('%s: fn %s: loop %d not found (has %d) (lost anchor)' % (file, name, k, len(loops)))
+                    lost.append('loop %d not found (function has %d)' % (k, len(loops)))
+                    continue
                 off = loops[k - 1][1]
             else:
                 rx = _lit_regex(lit)
                 ms = list(rx.finditer(body))
                 if len(ms) < k:
-                    raise ScanError('%s: fn %s: anchor `%s` occurrence %d not found (lost anchor)' % (file, name, lit, k))
+                    lost.append('anchor `%s` occurrence %d not found' % (lit, k))
+                    continue
                 if kind == 'before':
                     off = ms[k - 1].start()
                 elif kind == 'after':
@@ -373,7 +383,8 @@ class Extractor:
                             break
                         q += 1
                     if q >= len(mbody) or mbody[q] != ';':
-                        raise ScanError('%s: fn %s: no statement end after anchor `%s` (lost anchor)' % (file, name, lit))
+                        lost.append('no statement end after anchor `%s`' % lit)
+                        continue
                     off = q + 1
             inserts.append((off, order, ls))
         inserts.sort()
@@ -383,21 +394,25 @@ class Extractor:
             self.out.add(l + '\n', 'unit', unit_rel, ln)
         body_line0 = loc.line_of(loc.body_open)
         last = 0
-        for (off, _, ls) in inserts:
+        for (off, order_, ls) in inserts:
             seg = body[last:off]
             self.out.add(seg + '\n', 'src', file, body_line0 + body.count('\n', 0, last))
             for (ln, l) in ls:
                 self.out.add(l + '\n', 'unit', unit_rel, ln)
+                self.splice_lines[len(self.out.lines)] = ((file, name, opts.get('impl')), order_)
             last = off
         self.out.add(body[last:] + '\n', 'src', file, body_line0 + body.count('\n', 0, last))
         meta['rules_fired'] = fired
+        meta['lost_splices'] = lost
         meta['loops'] = len(loops)
         meta['mode'] = 'verified-here'
         self.functions.append(meta)
 
 
-def generate(unit_path, out_path, repo=None):
+def generate(unit_path, out_path, repo=None, drop_splices=None):
     ex = Extractor(repo)
+    if drop_splices:
+        ex.drop_splices = drop_splices
     ex.process_file(unit_path)
     text = ex.out.text()
     os.makedirs(os.path.dirname(out_path), exist_ok=True)
